@@ -149,6 +149,57 @@ type Node struct {
 	NdPeer *NestA
 	NdHold Holder
 	NdMore *NestB
+	// arrays of structs NOT behind a pointer: the transformer recurses into
+	// them, slot by slot
+	NdPair [2]NestA
+	NdTrio [3]Leafy
+}
+
+// Leafy is an array element with a set and a duration.
+type Leafy struct {
+	LfNum   int
+	LfSet   map[string]struct{}
+	LfEvery time.Duration
+}
+
+// ---- two- and three-level embedding, by value and by pointer, with leaves at
+// every level ----
+
+// EmbBase is the innermost embedded struct.
+type EmbBase struct {
+	BsNum  int
+	BsText string
+}
+
+// EmbCommon embeds EmbBase by value.
+type EmbCommon struct {
+	CmFlag bool
+	EmbBase
+	CmList []string
+}
+
+// EmbCommonP embeds EmbRoot by pointer.
+type EmbCommonP struct {
+	*EmbRoot
+	CpNum int
+}
+
+// EmbRoot is another innermost embedded struct.
+type EmbRoot struct {
+	RtEvery time.Duration
+	RtSet   map[string]struct{}
+}
+
+// EmbTop embeds EmbCommon by value: three levels.
+type EmbTop struct {
+	EmbCommon
+	TpRatio float64
+}
+
+// EmbTopP embeds EmbCommonP by pointer: three levels through pointers.
+type EmbTopP struct {
+	TpName string
+	*EmbCommonP
 }
 
 var _ = []any{EmbHidden{}.front, EmbHidden{}.mid, EmbHidden{}.back, TrailFirst{}.lead, TrailMid{}.mid, TrailLast{}.tail}
@@ -160,6 +211,10 @@ func init() {
 	shape.RegisterBase("EmbPair", reflect.TypeOf(EmbPair{}))
 	shape.RegisterBase("EmbHidden", reflect.TypeOf(EmbHidden{}))
 	shape.RegisterBase("Node", reflect.TypeOf(Node{}))
+	shape.RegisterBase("EmbCommon", reflect.TypeOf(EmbCommon{}))
+	shape.RegisterBase("EmbCommonP", reflect.TypeOf(EmbCommonP{}))
+	shape.RegisterBase("EmbTop", reflect.TypeOf(EmbTop{}))
+	shape.RegisterBase("EmbTopP", reflect.TypeOf(EmbTopP{}))
 	shape.RegisterBase("Cart", reflect.TypeOf(Cart{}))
 	shape.RegisterBase("Wagon", reflect.TypeOf(Wagon{}))
 	shape.RegisterBase("Job", reflect.TypeOf(Job{}))
@@ -196,6 +251,10 @@ var staticWords = map[string][]string{
 	"TfOnly": {"tf", "only"}, "TmOne": {"tm", "one"}, "TmTwo": {"tm", "two"}, "TlNum": {"tl", "num"}, "TlText": {"tl", "text"},
 	"TdAlpha": {"td", "alpha"}, "TdGamma": {"td", "gamma"}, "Qty": {"qty"}, "Load": {"load"},
 	"NdNum": {"nd", "num"}, "NdPeer": {"nd", "peer"}, "NdHold": {"nd", "hold"}, "NdMore": {"nd", "more"}, "HdTag": {"hd", "tag"}, "HdInner": {"hd", "inner"},
+	"NdPair": {"nd", "pair"}, "NdTrio": {"nd", "trio"}, "LfNum": {"lf", "num"}, "LfSet": {"lf", "set"}, "LfEvery": {"lf", "every"},
+	"EmbBase": {"emb", "base"}, "EmbCommon": {"emb", "common"}, "EmbCommonP": {"emb", "common", "p"}, "EmbRoot": {"emb", "root"}, "EmbTop": {"emb", "top"}, "EmbTopP": {"emb", "top", "p"},
+	"BsNum": {"bs", "num"}, "BsText": {"bs", "text"}, "CmFlag": {"cm", "flag"}, "CmList": {"cm", "list"}, "CpNum": {"cp", "num"},
+	"RtEvery": {"rt", "every"}, "RtSet": {"rt", "set"}, "TpRatio": {"tp", "ratio"}, "TpName": {"tp", "name"},
 	"X": {"x"}, "Y": {"y"}, "Vals": {"vals"}, "M": {"m"}, "P": {"p"},
 }
 
